@@ -1819,7 +1819,23 @@ def rebuild_drops_meta_along_path(case, outcome, atoms):
     Meta-derived indexes/constraints that a fresh install has."""
     info = outcome.get('path_info') or {}
     out = []
+    # a later removal of a Meta group that an earlier rebuild of the same run already lost
+    # fails with 'no such index' (same as in C01)
+    h = case.get('history') or {}
+    meta_model = False
+    try:
+        from . import history as H
+        from . import specs as S
+        for v in H.versions(h):
+            for _a, _n, m in S.iter_models(v['spec']):
+                if m['unique_together'] or m['index_together'] or m['indexes'] or \
+                        m['constraints']:
+                    meta_model = True
+    except Exception:
+        pass
     for a in atoms:
+        if meta_model and a[0] == 'run_failed' and 'no such index' in str(a[-1]):
+            continue
         if a[0] == 'path_schema' and a[3] in ('index', 'check') and a[5] == 'missing':
             reb = (info.get(a[1]) or {}).get('rebuilt') or []
             if a[2] in reb:
@@ -1888,6 +1904,14 @@ def callable_initial_overwrites_column_along_path(case, outcome, atoms):
                     names.add(m['name'])
     if not names:
         return atoms
+    # (the field may have been renamed before: its uid keeps the original name)
+    cur = set(names)
+    for s_ in reversed(h.get('steps', [])):
+        if s_['type'] == 'evolve':
+            for m in reversed(s_['seq']):
+                if m['kind'] == 'RenameField' and m['new'] in cur:
+                    cur.add(m['old'])
+    names = cur
     return [a for a in atoms if not (a[0] == 'path_rows' and a[2] == 'value_changed' and
                                      str(a[4]).split('.')[-1] in names)]
 
